@@ -46,6 +46,47 @@ pub fn to_wal(r: &Rec) -> WALRecord<VT> {
     }
 }
 
+/// A reader that hands out `first` bytes on its first call and at most `then` per later call.
+struct Pieces<'a> {
+    data: &'a [u8],
+    pos: usize,
+    first: usize,
+    then: usize,
+    calls: usize,
+}
+
+impl std::io::Read for Pieces<'_> {
+    fn read(&mut self, out: &mut [u8]) -> std::io::Result<usize> {
+        let lim = if self.calls == 0 { self.first } else { self.then };
+        self.calls += 1;
+        let n = out.len().min(lim).min(self.data.len() - self.pos);
+        out[..n].copy_from_slice(&self.data[self.pos..self.pos + n]);
+        self.pos += n;
+        Ok(n)
+    }
+}
+
+/// A writer with room for `room` bytes; then it fails like a full device.
+struct Limited {
+    buf: Vec<u8>,
+    room: usize,
+}
+
+impl std::io::Write for Limited {
+    fn write(&mut self, b: &[u8]) -> std::io::Result<usize> {
+        let left = self.room - self.buf.len();
+        if left == 0 && !b.is_empty() {
+            return Err(std::io::Error::new(std::io::ErrorKind::WriteZero, "writer full"));
+        }
+        let n = b.len().min(left);
+        self.buf.extend_from_slice(&b[..n]);
+        Ok(n)
+    }
+    fn flush(&mut self) -> std::io::Result<()> {
+        Ok(())
+    }
+}
+
 #[derive(Debug, PartialEq, Eq)]
 pub enum Dec {
     Ok(Rec, usize),
@@ -138,6 +179,65 @@ pub fn check_record(rec: &Rec, sel: u64, exhaustive: bool) -> Result<(u64, u64),
                 }
             }
             other => return Err(Fail::new("roundtrip", format!("decode(encode(r) ++ {junk_len} junk bytes) failed: {:?}; r = {:?}", other, brief_rec(rec)))),
+        }
+    }
+    // 2b. the decoder takes any `Read`: a reader that delivers the same bytes in pieces (a
+    // BufReader refilling at a buffer boundary, a pipe) must give the same record. Piece sizes:
+    // 1 byte, a generated small size, and a split at every offset of the first 24 bytes.
+    {
+        let mut b = buf.clone();
+        b.extend_from_slice(&[0xAB; 7]);
+        let k2 = 2 + (mix(sel, 31) % 11) as usize;
+        let mut plans: Vec<(usize, usize)> = vec![(1, 1), (k2, k2)];
+        for first in 1..buf.len().min(24) {
+            plans.push((first, usize::MAX));
+        }
+        for (first, then) in plans {
+            evals += 1;
+            let r = catch_unwind(AssertUnwindSafe(|| {
+                let mut rd = Pieces { data: &b, pos: 0, first, then, calls: 0 };
+                let res = WALRecord::<VT>::decode(&mut rd);
+                (res, rd.pos)
+            }))
+            .map_err(|p| Fail::new("decode-panic", format!("decoding through a reader that delivers {first} then {then} bytes per call panicked: {}", panic_msg(&p))))?;
+            match r {
+                (Ok(got), used) => {
+                    let got = to_rec(&got);
+                    if got != *rec || used != n {
+                        return Err(Fail::new("roundtrip-piecewise-reader", format!("decoding encode(r) through a reader that delivers {first} bytes, then {then} per call: got {:?} consuming {used} bytes, expected the record itself consuming {n}; r = {:?}", brief_rec(&got), brief_rec(rec))));
+                    }
+                }
+                (Err(e), _) => {
+                    return Err(Fail::new("roundtrip-piecewise-reader", format!("decoding encode(r) through a reader that delivers {first} bytes, then {then} per call failed: {e} ({:?}); from a slice the same bytes decode; r = {:?}", e.kind(), brief_rec(rec))));
+                }
+            }
+        }
+    }
+    // 2c. a failed encode (the writer runs full) must not disturb the next encode
+    {
+        for room in [0usize, 3, 4, n / 2, n.saturating_sub(1)] {
+            if room >= n {
+                continue;
+            }
+            evals += 1;
+            let r = catch_unwind(AssertUnwindSafe(|| {
+                let mut small = Limited { buf: Vec::new(), room };
+                let first = w.encode(&mut small);
+                let mut again = vec![];
+                let second = w.encode(&mut again);
+                (first.is_ok(), second, again)
+            }))
+            .map_err(|p| Fail::new("encode-panic", format!("encode into a writer with room for {room} bytes panicked: {}", panic_msg(&p))))?;
+            let (first_ok, second, again) = r;
+            if first_ok {
+                return Err(Fail::new("encode-into-full-writer-ok", format!("encode({:?}) into a writer with room for {room} of {n} bytes returned Ok", brief_rec(rec))));
+            }
+            match second {
+                Ok(m) if m == n && again == want => {}
+                other => {
+                    return Err(Fail::new("encode-after-failed-encode", format!("after an encode that failed (writer full after {room} bytes) the next encode({:?}) reported {:?} and wrote {} bytes {}; expected {n} bytes {}", brief_rec(rec), other.map_err(|e| e.to_string()), again.len(), hex(&again), hex(&want))));
+                }
+            }
         }
     }
     // 3. truncations and single-byte mutations
